@@ -15,7 +15,7 @@ ADM = 2e-5       # the implementation itself admits within 1e-5 of the spacing b
 
 
 class ConveyorOracle:
-    def __init__(self, mon, sh, T, step, cap, acc, slotted=False, ragged=False):
+    def __init__(self, mon, sh, T, step, cap, acc, slotted=False, ragged=False, mixed=False):
         self.mon = mon
         self.sh = sh
         self.T = T
@@ -24,6 +24,8 @@ class ConveyorOracle:
         self.acc = bool(acc)
         self.slotted = slotted
         self.ragged = ragged
+        self.mixed = mixed        # items of different lengths on one belt: spacing is judged with the previous item's own length
+        self.prev_len_steps = 1.0
         self.items = []           # ItemRec in entry order
         self.gets = []            # (t, ItemRec)
         self.last_put_t = None
@@ -122,9 +124,12 @@ class ConveyorOracle:
         if not self._is_aligned(now):
             self.aligned = False
         prev = self.items[-1] if self.items else None
+        s_prev = self.s * (self.prev_len_steps if self.mixed else 1.0)
+        if self.mixed:
+            self.prev_len_steps = getattr(ir.item, "mon_len_steps", 1.0)
         if self.last_put_t is not None:
             gap = now - self.last_put_t
-            if gap < self.s - ADM:
+            if gap < s_prev - ADM:
                 self.viol("C12", "entry_spacing", "successive-items-entered-less-than-one-item-length-apart",
                           {"gap": gap, "item": ir.iid, "t": now, "granted_puts_outstanding": len(sh.grant["put"])})
         self.last_put_t = now
@@ -134,7 +139,7 @@ class ConveyorOracle:
             stood = self.overlap(self.narrow, prev.put_t, now, self._n_open, now)
             moved = (now - prev.put_t) - stood
             mon.counters["c12_strong_spacing_checked"] += 1
-            if moved < self.s - ADM - self.tol(now):
+            if moved < s_prev - ADM - self.tol(now):
                 canc = any(prev.put_t <= c <= now for c in self.cancel_times)
                 if canc:
                     mon.counters["c12_strong_spacing_skipped_after_cancel"] += 1
